@@ -42,7 +42,17 @@ def one_step(c: Dict[str, Any]) -> Dict[str, Any]:
         uu.DepthSequential(layer, *others)  # tags the parameters with depth = number of layers
     sign = lambda shape: (torch.randint(0, 2, shape, generator=g).to(torch.float64) * 2 - 1)
     x = sign((1, fi, k)) if kind == "conv1d" else sign((1, fi))
-    opt = getattr(O, c["opt"])(layer.parameters(), lr=c["eta"], eps=0.0, weight_decay=0.0)
+    # how the layer reaches the optimizer: alone, or in explicit groups together with other (wider / deeper) layers --
+    # its update must not depend on the company it keeps
+    form = c.get("form", "plain")
+    company = [uu.Linear(256, 8, dtype=torch.float64), uu.LinearReadout(5, 3, dtype=torch.float64)]
+    uu.DepthSequential(uu.Linear(7, 7, dtype=torch.float64), company[0])
+    cp = [p for m in company for p in m.parameters()]
+    lp = list(layer.parameters())
+    params: Any = {"plain": lp, "group_after": [{"params": cp + lp}], "group_before": [{"params": lp + cp}],
+                   "two_groups": [{"params": cp}, {"params": lp}], "tensor_lr_group": [{"params": cp + lp}]}[form]
+    lr: Any = torch.tensor(c["eta"], dtype=torch.float64) if form == "tensor_lr_group" else c["eta"]
+    opt = getattr(O, c["opt"])(params, lr=lr, eps=0.0, weight_decay=0.0)
     out0 = layer(x)
     up = torch.randn(out0.shape, generator=g, dtype=torch.float64)
     up = torch.where(up.abs() < 1e-3, torch.ones_like(up), up)  # no zero entries
@@ -70,7 +80,8 @@ def gen_cases(rng: random.Random, n: int) -> List[Dict[str, Any]]:
             depth = 0
         out.append({"kind": "update", "layer": kind, "fanIn": fi, "fanOut": fo, "k": k, "depth": depth,
                     "eta": 10 ** rng.uniform(-4, 0), "opt": rng.choice(["Adam", "AdamW"]),
-                    "constraint": rng.choice(["default", "none"]), "seed": rng.randrange(1 << 30)})
+                    "constraint": rng.choice(["default", "none"]), "seed": rng.randrange(1 << 30),
+                    "form": rng.choice(["plain", "plain", "group_after", "group_before", "two_groups", "tensor_lr_group"])})
     return out
 
 
@@ -78,7 +89,7 @@ def judge(rep: Report, c: Dict[str, Any], e: Dict[str, Any], obs: Dict[str, Any]
     f2 = Fraction(e["f2"][0], e["f2"][1])
     want = c["eta"] * math.sqrt(float(f2))
     worst = max(abs(a - want) / want for a in obs["abs"])
-    label = f"{c['layer']} fan_in={c['fanIn']} fan_out={c['fanOut']} k={c['k']} depth={c['depth']} eta={c['eta']:.4g} {c['opt']} constraint={c['constraint']}"
+    label = f"[{c.get('form', 'plain')}] {c['layer']} fan_in={c['fanIn']} fan_out={c['fanOut']} k={c['k']} depth={c['depth']} eta={c['eta']:.4g} {c['opt']} constraint={c['constraint']}"
     if worst > 1e-9 or not obs["sign_ok"]:
         rep.violation(
             f"output moved by {obs['abs'][0] / c['eta']:.9g} x eta (worst rel. deviation {worst:.3g}); spec UpdateSize2 = {f2} i.e. {math.sqrt(float(f2)):.9g} x eta for {label}",
@@ -111,7 +122,7 @@ def run(rep: Report, tier: str) -> None:
         judge(rep, c, e, obs)
         rep.case((c["layer"], c["fanIn"], c["fanOut"], c["k"], c["depth"], c["opt"], c["constraint"]), nontrivial=c["fanIn"] * c["k"] > 1)
     rep.traces = rep.evaluations
-    rep.rule = "seeded layer configurations (widths to 4096, kernel 1-9, depth None/1..64, eta log-uniform in [1e-4,1], Adam/AdamW, default/no constraint); one real optimizer step each; non-trivial = more than one summed term"
+    rep.rule = "seeded layer configurations (widths to 4096, kernel 1-9, depth None/1..64, eta log-uniform in [1e-4,1], Adam/AdamW, default/no constraint, parameters given plainly / in one explicit group before or after other layers / in two groups / with a tensor lr); one real optimizer step each; non-trivial = more than one summed term"
     rep.sample({"case": cases[0], "spec_UpdateSize2": ev["out"][0]})
     rep.assumptions += ["relative tolerance 1e-9 on |delta out| in float64", "depth d is realised by a DepthSequential of d layers"]
 
